@@ -519,7 +519,7 @@ def solve_sat(
                 return Result(sol, len(sol), decisions, propagations, solutions=tuple(all_solutions))
             clause_idx = len(clauses) + len(learned)
             learned.append(blocking)
-            lbd_scores.append(n_vars)
+            lbd_scores.append(0)  # not implied by the formula: reduce_db must never discard a blocking clause
             if _verif.ENABLED:  # pragma: no cover
                 _verif.emit("block", clause=list(blocking), idx=clause_idx)
 
